@@ -7,7 +7,6 @@ class C16(L.LmmCheck):
     pid = 'C16'
     solvers = ['maxmin', 'maxmin', 'bmf']
     my_monitor_prop = 'C16'
-    hang_is_violation = True
     rule = ('same seeded histories as C15 on the maxmin (2/3) and bmf (1/3) solvers, with and without selective '
             'update; after every solve: maxmin - every enabled consuming variable below its bound uses a saturated '
             'constraint on which value*penalty is the largest, and on systems whose used constraints are all SHARED '
